@@ -63,7 +63,9 @@ func runC13(p *Plan) {
 		if s.Kind == "helper" {
 			continue
 		}
-		if s.Kind == "field" {
+		if s.Kind == "solo" {
+			p.Out.Line("PD " + s.Name + " S 1 F " + texprToks(s.Expr))
+		} else if s.Kind == "field" {
 			p.Out.Line("PD " + s.Name + " S 3 A N int32 F " + texprToks(s.Expr) + " Z L N byte")
 		} else {
 			p.Out.Line("PD " + s.Name + " " + texprToks(s.Expr))
